@@ -392,7 +392,7 @@ def py_construct(o, objs_py, einit, iinit):
 
 
 def render_tree(items, val):
-    """items: sorted [(code, value)] -> Lean term of a balanced `Tree`"""
+    """items: sorted [(code, value)] -> Lean term of a balanced `KeyTree`"""
     def go(lo, hi, depth):
         if lo >= hi:
             return '.leaf'
@@ -647,12 +647,12 @@ def translate(elements_pyx=ELEMENTS_PYX, line_pyx=LINE_PYX):
         key_strings[kind] = {k: objs[i]['var'] for k, i in d.items()}
         items = sorted((code(k), i) for k, i in d.items())
         L.append('/-- certificate: balanced search tree over the %d distinct keys `_build_%s_index` assigns (key → final owner) -/' % (len(items), kind))
-        L.append('def %s : Tree %s :=\n    %s' % (nm, typ, render_tree(items, lambda i: objs[i]['lean'])))
+        L.append('def %s : KeyTree %s :=\n    %s' % (nm, typ, render_tree(items, lambda i: objs[i]['lean'])))
     names = {}
     for pos, i in enumerate(el_ids + iso_ids):
         names[objs_py[i].name.lower() if hasattr(objs_py[i], 'name') else objs[i]['name'].lower()] = pos
     L.append('/-- certificate: lower-case name → position in `elements ++ isotopes` -/')
-    L.append('def nameTree : Tree Nat :=\n    %s' % render_tree(sorted((code(k), p) for k, p in names.items()), str))
+    L.append('def nameTree : KeyTree Nat :=\n    %s' % render_tree(sorted((code(k), p) for k, p in names.items()), str))
     L.append('')
     L.append('/-- readable spellings (name, symbol) of `elements` / `isotopes`, same order; tied to the codes by `Props.C19.codes_ok` -/')
 
